@@ -342,7 +342,16 @@ def one(seed, i, res, tape):
             ou = ("raise", e)
         before = len(tape.entries)
         try:
-            rd = dec(*copy.deepcopy(args), **copy.deepcopy(kwargs))
+            if rng.random() < 0.2:
+                # the caller is inside an action that was started with a logger object of its own: the decorated call still logs
+                # through the default logger to the registered destinations
+                from vf.interp import _Sink
+                import eliot as _eliot
+                res["counters"]["calls_inside_foreign_logger_action"] = res["counters"].get("calls_inside_foreign_logger_action", 0) + 1
+                with _eliot.start_action(_Sink(), "c18:outer"):
+                    rd = dec(*copy.deepcopy(args), **copy.deepcopy(kwargs))
+            else:
+                rd = dec(*copy.deepcopy(args), **copy.deepcopy(kwargs))
             od = ("ret", rd)
         except TypeError as e:
             od = ("typeerror", e) if chan_d.calls == 0 else ("raise", e)
